@@ -124,6 +124,20 @@ func c16CheckPath(c *fw.Case, p refmodel.Path, seen map[string]string, strict bo
 			c.Violate("path", "path/parent", fmt.Sprintf("parent of %q is %q, expected %q", text, parent, wantParent), nil)
 			return false
 		}
+		// the list an entry belongs to is the path without the keys of its last element
+		if !slashInKey && len(p) > 0 {
+			last := p[len(p)-1]
+			wantList := ""
+			if len(last.Keys) > 0 {
+				bare := append(append(refmodel.Path{}, p[:len(p)-1]...), refmodel.Elem{Name: last.Name})
+				wantList = utils.StrPath(bare.ToGNMI(""))
+			}
+			c.Count("list_paths_checked", 1)
+			if got := pathutils.GetListPath(text); got != wantList {
+				c.Violate("path", "path/list-path", fmt.Sprintf("the list path of %q is %q, expected %q", text, got, wantList), nil)
+				return false
+			}
+		}
 	}
 	return true
 }
@@ -269,6 +283,8 @@ var c18Universe = []c18Item{
 	{"/c/l[k=1]/in[id=1]/w", false, refmodel.S("7")}, {"/c/l[k=1]/in[id=10]/w", false, refmodel.S("8")}, {"/c", true, ""},
 	{"/cont/leaf2", false, refmodel.S("9")}, {"/cont/leaf2a", false, refmodel.S("9a")}, {"/cont-x/leaf", false, refmodel.S("10")}, {"/cont", true, ""},
 	{"/c/l[k=true]/v", false, refmodel.S("11")}, {"/c/l[k=1]/k", false, refmodel.S("1")},
+	// typed key leaves written explicitly: a boolean key and a numeric one
+	{"/c/lb[on=true]/on", false, refmodel.Val("b:true")}, {"/c/lb[on=true]/v", false, refmodel.S("12")}, {"/c/l[k=1]/in[id=1]/id", false, refmodel.U(1)},
 }
 
 type c18Entry struct {
@@ -478,7 +494,7 @@ func c18Run(c *fw.Case, part, parts int) {
 func init() {
 	const parts = 10
 	fw.Register(&fw.Check{ID: "C18", Level: "exploration", Exhaustive: true,
-		Technique:   "runtime monitoring of the pure tree helpers (v2 and v3), exhaustive small scope: every set of <= 4 entries from a 20-path universe (nested and two-key lists, numeric / boolean-looking keys, keys that are prefixes of each other, sibling names sharing prefixes, explicit key leaf) in every value / tombstone state; BuildTree document flattened by an independent schema-driven flattener == live leaves; PrunePathValues in both modes == reference",
+		Technique:   "runtime monitoring of the pure tree helpers (v2 and v3), exhaustive small scope: every set of <= 4 entries from a 23-path universe (nested and two-key lists, numeric / boolean-looking keys, keys that are prefixes of each other, sibling names sharing prefixes, explicit key leaf) in every value / tombstone state; BuildTree document flattened by an independent schema-driven flattener == live leaves; PrunePathValues in both modes == reference",
 		Rule:        "cases partition the subsets by smallest element; each case adds 300 PRNG sets of ~10 entries; distinct_nontrivial = parts executed",
 		Assumptions: []string{"a key leaf that a document shows only because it identifies its entry is implied, not an extra leaf; an explicit key leaf must agree with its entry"},
 		DistinctSet: "part",
